@@ -751,8 +751,25 @@ EvalRoundtrip(r) ==
          Out(r, Prop \o ".printing_is_stable",
              IF r.text3 = r.text2 THEN OkT ELSE BadT([note |-> "printing the re-parsed tree gives other text", got |-> r.text3, expected |-> r.text2]), "")>>
 
+\* ---------------------------------------------------------------- kind "fixloop": C18 (fixpoint strategy)
+\* r.passes: the formula hashes of the driven loop f, step(f), step(step(f)), ...;  accepted iff it is a behaviour of
+\* SimplifyLoop.tla that stops: no formula is revisited, the loop stopped within the bound, the library's own loop returned the
+\* same formula, and simplifying the result again returns it unchanged.
+EvalFixLoop(r) ==
+  LET hs == r.passes
+      revisit == \E i, j \in DOMAIN hs : i < j /\ hs[i] = hs[j]
+  IN <<Out(r, "C18.fixpoint_loop_terminates",
+           IF revisit THEN BadT([note |-> "a formula is revisited: the fixpoint iteration cycles", got |-> hs])
+           ELSE IF ~r.converged THEN BadT([note |-> "no fixed point within the pass bound", got |-> Len(hs)])
+           ELSE [OkT EXCEPT !.n = Len(hs), !.t = IF Len(hs) > 1 THEN 1 ELSE 0, !.f = IF Len(hs) > 1 THEN 1 ELSE 0], r.portfolio),
+       Out(r, "C18.result_is_a_fixed_point",
+           IF r.converged /\ ~r.idempotent THEN BadT([note |-> "simplifying the result again changes it"])
+           ELSE IF r.converged /\ ~r.lib_equal THEN BadT([note |-> "the library's fixpoint strategy returns another formula than iterating passes until nothing changes"])
+           ELSE OkT, r.portfolio)>>
+
 EvalRecord(r) ==
   CASE r.kind = "rule" -> EvalRule(r)
+    [] r.kind = "fixloop" -> EvalFixLoop(r)
     [] r.kind = "roundtrip" -> EvalRoundtrip(r)
     [] r.kind = "tptp" -> EvalTptp(r)
     [] r.kind = "tffproblem" -> EvalProblem(r) \o (IF r.strong THEN EvalTransition(r) ELSE <<>>)
